@@ -76,18 +76,29 @@ func geq(a, b linExpr) linExpr { return a.add(b, -1) }
 type linAlt []linExpr
 
 type linCtx struct {
-	c      *Ctx
-	P      *Program
-	facts  []linExpr
-	disj   [][]linAlt
-	vars   map[ssa.Value]linExpr
-	trust  bool // parameters / entry guards may be taken from the product callers (function not exported)
-	depth  int
-	nFresh int
-	ids    map[ssa.Value]string
-	bound  map[*ssa.Function]bool // functions whose parameters were bound to their callers already
-	inst   string                 // suffix of names local to one inlined helper call
-	root   *linCtx                // the context facts are collected in (nil: this one)
+	c         *Ctx
+	P         *Program
+	facts     []linExpr
+	disj      [][]linAlt
+	vars      map[ssa.Value]linExpr
+	trust     bool // parameters / entry guards may be taken from the product callers (function not exported)
+	depth     int
+	nFresh    int
+	ids       map[ssa.Value]string
+	bound     map[*ssa.Function]bool // functions whose parameters were bound to their callers already
+	inst      string                 // suffix of names local to one inlined helper call
+	root      *linCtx                // the context facts are collected in (nil: this one)
+	joinDepth int
+	defSink   *linCtx // where facts that define values (true wherever the value exists) are collected; nil: here
+}
+
+// def: the context that collects definitional facts (len >= 0, min/max relations, parameter bindings, ...): a
+// context made for one edge or one caller keeps only what is known on that edge for itself.
+func (lc *linCtx) def() *linCtx {
+	if lc.defSink != nil {
+		return lc.defSink
+	}
+	return lc
 }
 
 func (lc *linCtx) top() *linCtx {
@@ -115,7 +126,7 @@ func (lc *linCtx) lenVar(x ssa.Value) linExpr {
 	_ = P
 	name := "len:" + lc.id(x)
 	e := linVar(name)
-	lc.facts = append(lc.facts, e) // len >= 0
+	lc.def().facts = append(lc.def().facts, e) // len >= 0
 	if prm, ok := lc.strip(x).(*ssa.Parameter); ok && lc.trust && lc.root == nil {
 		lc.bindParams(prm.Parent())
 	}
@@ -126,13 +137,13 @@ func (lc *linCtx) lenVar(x ssa.Value) linExpr {
 			for _, sib := range lc.c.lenEqSiblings(n, fi) {
 				sn := strings.TrimSuffix(name, own) + "." + n.Underlying().(*types.Struct).Field(sib).Name() + "))"
 				se := linVar(sn)
-				lc.facts = append(lc.facts, se, geq(e, se), geq(se, e))
+				lc.def().facts = append(lc.def().facts, se, geq(e, se), geq(se, e))
 			}
 		}
 	}
 	if mk, ok := lc.strip(x).(*ssa.MakeSlice); ok {
 		n := lc.of(mk.Len)
-		lc.facts = append(lc.facts, geq(e, n), geq(n, e))
+		lc.def().facts = append(lc.def().facts, geq(e, n), geq(n, e))
 	}
 	switch y := lc.strip(x).(type) {
 	case *ssa.BinOp:
@@ -141,7 +152,7 @@ func (lc *linCtx) lenVar(x ssa.Value) linExpr {
 			lc.depth++
 			sum := lc.lenVar(y.X).add(lc.lenVar(y.Y), 1)
 			lc.depth--
-			lc.facts = append(lc.facts, geq(e, sum), geq(sum, e))
+			lc.def().facts = append(lc.def().facts, geq(e, sum), geq(sum, e))
 		}
 	case *ssa.Slice:
 		// x[lo:hi] that was evaluated (did not panic): 0 <= lo <= hi <= len(x), and its length is hi - lo
@@ -157,7 +168,7 @@ func (lc *linCtx) lenVar(x ssa.Value) linExpr {
 			}
 			lc.depth--
 			d := hi.add(lo, -1)
-			lc.facts = append(lc.facts, lo, geq(hi, lo), geq(lx, hi), geq(e, d), geq(d, e))
+			lc.def().facts = append(lc.def().facts, lo, geq(hi, lo), geq(lx, hi), geq(e, d), geq(d, e))
 		}
 	}
 	return e
@@ -354,7 +365,7 @@ func (lc *linCtx) of(v ssa.Value) linExpr {
 				q := linVar(lc.fresh("quo", v))
 				lc.vars[v] = q
 				if lc.prove(a) { // numerator >= 0: c*q <= n <= c*q + c-1
-					lc.facts = append(lc.facts, geq(a, q.scale(b.c)), geq(q.scale(b.c).add(linConst(b.c-1), 1), a))
+					lc.def().facts = append(lc.def().facts, geq(a, q.scale(b.c)), geq(q.scale(b.c).add(linConst(b.c-1), 1), a))
 				}
 				return q
 			}
@@ -363,7 +374,7 @@ func (lc *linCtx) of(v ssa.Value) linExpr {
 				r := linVar(lc.fresh("rem", v))
 				lc.vars[v] = r
 				if lc.prove(a) {
-					lc.facts = append(lc.facts, r, geq(linConst(b.c-1), r))
+					lc.def().facts = append(lc.def().facts, r, geq(linConst(b.c-1), r))
 				}
 				return r
 			}
@@ -382,13 +393,13 @@ func (lc *linCtx) of(v ssa.Value) linExpr {
 				for _, a := range x.Call.Args {
 					ea := lc.of(a)
 					if bi.Name() == "min" {
-						lc.facts = append(lc.facts, geq(ea, z))
+						lc.def().facts = append(lc.def().facts, geq(ea, z))
 					} else {
-						lc.facts = append(lc.facts, geq(z, ea))
+						lc.def().facts = append(lc.def().facts, geq(z, ea))
 					}
 					alts = append(alts, linAlt{geq(z, ea), geq(ea, z)})
 				}
-				lc.disj = append(lc.disj, alts)
+				lc.def().disj = append(lc.def().disj, alts)
 				return z
 			}
 		}
@@ -409,7 +420,7 @@ func (lc *linCtx) of(v ssa.Value) linExpr {
 						upper = ls.add(linConst(1), -1)
 					}
 				}
-				lc.facts = append(lc.facts, r.add(linConst(1), 1), geq(upper, r))
+				lc.def().facts = append(lc.def().facts, r.add(linConst(1), 1), geq(upper, r))
 				return r
 			}
 		}
@@ -417,7 +428,7 @@ func (lc *linCtx) of(v ssa.Value) linExpr {
 			r := linVar("v:" + lc.id(v))
 			lc.vars[v] = r
 			n := lc.of(x.Call.Args[0])
-			lc.facts = append(lc.facts, r, geq(n, r)) // 0 <= r <= n (documented contract)
+			lc.def().facts = append(lc.def().facts, r, geq(n, r)) // 0 <= r <= n (documented contract)
 			return r
 		}
 		// an integer computed by a product helper with a single return statement: the returned expression, with the
@@ -444,9 +455,48 @@ func (lc *linCtx) of(v ssa.Value) linExpr {
 					sub.ids[p] = lc.id(x.Call.Args[i])
 				}
 				e := sub.of(ret.Results[0])
-				lc.facts = append(lc.facts, sub.facts...)
-				lc.disj = append(lc.disj, sub.disj...)
+				lc.def().facts = append(lc.def().facts, sub.facts...)
+				lc.def().disj = append(lc.def().disj, sub.disj...)
 				return set(e)
+			}
+			// several returns (a classification helper: `switch { case a < b: return head; ... }`): the result is the
+			// value of one of them, under the conditions that dominate that return
+			if n >= 2 && n <= 8 {
+				t := lc.top()
+				t.nFresh++
+				inst := fmt.Sprintf("%s/call%d", lc.inst, t.nFresh)
+				z := linVar("v:" + lc.id(v))
+				lc.vars[v] = z
+				var alts []linAlt
+				okAll := true
+				allInstrs(callee, func(b *ssa.BasicBlock, ins ssa.Instruction) {
+					r, isRet := ins.(*ssa.Return)
+					if !isRet {
+						return
+					}
+					if len(r.Results) != 1 {
+						okAll = false
+						return
+					}
+					sub := &linCtx{c: lc.c, P: P, vars: map[ssa.Value]linExpr{}, ids: map[ssa.Value]string{}, trust: false, depth: lc.depth + 1,
+						inst: inst, root: t, nFresh: t.nFresh * 1000, defSink: lc.def()}
+					for i, p := range callee.Params {
+						if isIntType(p.Type()) {
+							sub.vars[p] = lc.of(x.Call.Args[i])
+						}
+						sub.ids[p] = lc.id(x.Call.Args[i])
+					}
+					e := sub.of(r.Results[0])
+					sub.blockFacts(b)
+					alt := linAlt{geq(z, e), geq(e, z)}
+					alt = append(alt, sub.facts...) // (case splits inside the helper are dropped: weaker, still true)
+					alts = append(alts, alt)
+				})
+				if okAll && len(alts) == n {
+					lc.def().disj = append(lc.def().disj, alts)
+					return z
+				}
+				delete(lc.vars, v)
 			}
 		}
 	case *ssa.Parameter:
@@ -458,7 +508,7 @@ func (lc *linCtx) of(v ssa.Value) linExpr {
 					p := linVar("v:" + lc.id(v))
 					lc.vars[v] = p
 					n := lc.of(call.Common().Args[0])
-					lc.facts = append(lc.facts, p, geq(n.add(linConst(-1), 1), p))
+					lc.def().facts = append(lc.def().facts, p, geq(n.add(linConst(-1), 1), p))
 					return p
 				}
 			}
@@ -504,9 +554,9 @@ func (lc *linCtx) of(v ssa.Value) linExpr {
 					alts = append(alts, linAlt{geq(z, lc.of(x.Edges[i]))})
 				}
 				if len(alts) == 1 {
-					lc.facts = append(lc.facts, alts[0]...)
+					lc.def().facts = append(lc.def().facts, alts[0]...)
 				} else if len(alts) > 1 {
-					lc.disj = append(lc.disj, alts)
+					lc.def().disj = append(lc.def().disj, alts)
 				}
 			}
 			return z
@@ -519,17 +569,15 @@ func (lc *linCtx) of(v ssa.Value) linExpr {
 			// what is known when control arrives over this edge: the conditions dominating the predecessor, and the
 			// predecessor's own branch if this edge is one of its two arms
 			pred := x.Block().Preds[i]
-			sub := &linCtx{c: lc.c, P: P, vars: lc.vars, ids: lc.ids, trust: lc.trust, depth: lc.depth, bound: lc.bound, nFresh: lc.nFresh + 1000*(i+1)}
+			sub := &linCtx{c: lc.c, P: P, vars: lc.vars, ids: lc.ids, trust: lc.trust, depth: lc.depth, bound: lc.bound, nFresh: lc.nFresh + 1000*(i+1), defSink: lc.def()}
 			sub.blockFacts(pred)
 			if ifi, ok := lastInstr(pred).(*ssa.If); ok && len(pred.Succs) == 2 && pred.Succs[0] != pred.Succs[1] {
 				sub.condFacts(ifi.Cond, pred.Succs[0] == x.Block())
 			}
-			if len(sub.disj) == 0 {
-				alt = append(alt, sub.facts...)
-			}
+			alt = append(alt, sub.facts...) // (case splits met on the way are dropped: weaker, still true)
 			alts = append(alts, alt)
 		}
-		lc.disj = append(lc.disj, alts)
+		lc.def().disj = append(lc.def().disj, alts)
 		return z
 	}
 	return opaque()
@@ -590,7 +638,7 @@ func (lc *linCtx) bindParams(fn *ssa.Function) {
 		if len(args) < len(fn.Params) {
 			return
 		}
-		sub := &linCtx{c: lc.c, P: P, vars: lc.vars, ids: lc.ids, trust: lc.trust, depth: lc.depth + 1, bound: lc.bound, nFresh: lc.nFresh + 100000*(ci+1)}
+		sub := &linCtx{c: lc.c, P: P, vars: lc.vars, ids: lc.ids, trust: lc.trust, depth: lc.depth + 1, bound: lc.bound, nFresh: lc.nFresh + 100000*(ci+1), defSink: lc.def()}
 		var alt linAlt
 		for _, i := range ints {
 			a := sub.of(args[i])
@@ -609,13 +657,13 @@ func (lc *linCtx) bindParams(fn *ssa.Function) {
 		}
 		alt = append(alt, sub.facts...)
 		if len(callers) == 1 {
-			lc.facts = append(lc.facts, alt...)
-			lc.disj = append(lc.disj, sub.disj...)
+			lc.def().facts = append(lc.def().facts, alt...)
+			lc.def().disj = append(lc.def().disj, sub.disj...)
 			return
 		}
 		alts = append(alts, alt)
 	}
-	lc.disj = append(lc.disj, alts)
+	lc.def().disj = append(lc.def().disj, alts)
 }
 
 func topFunc(fn *ssa.Function) *ssa.Function {
@@ -637,6 +685,36 @@ func (lc *linCtx) blockFacts(b *ssa.BasicBlock) {
 		for k, s := range d.Succs {
 			if len(s.Preds) == 1 && dominates(s, b) {
 				lc.condFacts(ifi.Cond, k == 0)
+			}
+		}
+	}
+	// a block entered over several forward edges (`if a || b { ... }`): what is known on one of them
+	if n := len(b.Preds); n >= 2 && n <= 4 && lc.joinDepth < 2 {
+		forward := true
+		for _, p := range b.Preds {
+			if dominates(b, p) {
+				forward = false // loop head
+			}
+		}
+		if forward {
+			var alts []linAlt
+			for i, p := range b.Preds {
+				sub := &linCtx{c: lc.c, P: lc.P, vars: lc.vars, ids: lc.ids, trust: lc.trust, depth: lc.depth, bound: lc.bound, inst: lc.inst, root: lc.root,
+					nFresh: lc.nFresh + 100000*(i+1), joinDepth: lc.joinDepth + 1, defSink: lc.def()}
+				sub.blockFacts(p)
+				if ifi, ok := lastInstr(p).(*ssa.If); ok && len(p.Succs) == 2 && p.Succs[0] != p.Succs[1] {
+					sub.condFacts(ifi.Cond, p.Succs[0] == b)
+				}
+				alts = append(alts, linAlt(sub.facts)) // (case splits on the way are dropped: weaker, still true)
+			}
+			useful := false
+			for _, a := range alts {
+				if len(a) > 0 {
+					useful = true
+				}
+			}
+			if useful {
+				lc.disj = append(lc.disj, alts)
 			}
 		}
 	}
